@@ -205,6 +205,22 @@ Fixpoint swap_loop (a : display) (acc : display) (l : list point) : result displ
   end.
 Definition swap_xy (a : display) : result display := swap_loop a new_display (points bounding_box).
 
+(* mod.rs:460-472 map: for point in bounding_box().points() { target.set_pixel_unchecked(point, self.get_pixel(point).map(f)) } *)
+Fixpoint map_loop (f : Z -> Z) (a : display) (acc : display) (l : list point) : result display :=
+  match l with
+  | [] => Ok acc
+  | p :: t =>
+      bind (get_pixel a p) (fun v =>
+      bind (set_pixel_unchecked acc p (option_map f v)) (fun acc' => map_loop f a acc' t))
+  end.
+Definition map_display (f : Z -> Z) (a : display) : result display := map_loop f a new_display (points bounding_box).
+
+(* the colour function the correspondence suites pass to map: raw value shifted by k, modulo the number of raw values *)
+Definition shift_color (n k v : Z) : Z := (v + k) mod n.
+
+(* mod.rs:257-265 from_points: new display, set_pixels(points, Some(color)) *)
+Definition from_points (l : list point) (c : Z) : result display := set_pixels new_display l (Some c).
+
 (* ---- ColorMapping, from_pattern, Debug ------------------------------------------------------- *)
 Fixpoint lookup (k : Z) (l : list (Z * Z)) : option Z :=
   match l with
